@@ -1,5 +1,5 @@
 (** C16 (in-memory cron): the property clauses as statements over the model
-    of Cron.v, for ALL operation sequences ([run ops (cron_init limit)] is
+    of Cron.v (the code after the repairs of D26, D38, D49 and D50), for ALL operation sequences ([run ops (cron_init limit)] is
     [fold_left step ops ...]); proofs are in CronProofs.v. *)
 From Coq Require Export Sorting.Sorted.
 From Verif Require Import Json Cron.
@@ -48,20 +48,34 @@ Definition recurring_once_per_occurrence_statement : Prop :=
     (count_fires id true (run ops (cron_init limit))
      <= count_ops (is_add id true) ops + count_ops (is_done id) ops)%nat.
 
-(** A job removed while it is pending (no callback of that id is running) and
-    not added again never fires afterwards. *)
+(** A job that is removed and not added again never fires afterwards --
+    whether it was pending or its callback was running at the time (a running
+    recurring job is marked and does not re-schedule itself: D26 repaired). *)
 Definition fires_of (id : string) (c : cron) : list fire :=
   filter (fun f => String.eqb (f_id f) id) (c_fires c).
-Definition inflight_free (id : string) (c : cron) : Prop :=
-  ~ In id (map j_id (c_inflight c)).
 Definition no_add (id : string) (ops : list cop) : Prop :=
   forall i next r now, In (CAdd i next r now) ops -> i <> id.
 
-Definition removed_pending_never_fires_statement : Prop :=
-  forall ops1 ops2 limit id,
+Definition removed_never_fires_statement : Prop :=
+  forall ops1 ops2 limit id now,
     let s1 := run ops1 (cron_init limit) in
-    inflight_free id s1 -> no_add id ops2 ->
-    fires_of id (run ops2 (step s1 (CRem id))) = fires_of id s1.
+    no_add id ops2 ->
+    fires_of id (run ops2 (step s1 (CRem id now))) = fires_of id s1.
+
+(** ... and it is on the timeline no more. *)
+Definition removed_not_pending_statement : Prop :=
+  forall ops1 ops2 limit id now,
+    let s1 := run ops1 (cron_init limit) in
+    no_add id ops2 ->
+    ~ In id (map j_id (c_tl (run ops2 (step s1 (CRem id now))))).
+
+(** Rem reports a job whenever there was one to cancel: a pending one, or a
+    recurring one whose callback is running (and not cancelled already). *)
+Definition rem_found_iff_statement : Prop :=
+  forall c id,
+    rem_found c id = true <->
+    (In id (map j_id (c_tl c)) \/
+     exists j, In (j, false) (c_inflight c) /\ j_id j = id /\ j_rec j = true).
 
 (** Suspend, resume and pause do not touch the timeline, the running
     callbacks or the fire log. *)
@@ -72,23 +86,19 @@ Definition suspend_keeps_jobs_statement : Prop :=
   forall c now, same_jobs c (step c CSuspend) /\ same_jobs c (step c (CResume now)) /\
                 same_jobs c (step c (CPause now)).
 
-(** A trace is timer driven when every tick is a delivery of the armed timer. *)
-Fixpoint timer_driven (c : cron) (ops : list cop) : Prop :=
-  match ops with
-  | [] => True
-  | o :: r =>
-      match o with CTick now => tick_enabled c now = true | _ => True end /\
-      timer_driven (step c o) r
-  end.
+(** While suspended nothing fires, whatever else happens (Add, Rem, returns
+    of callbacks, pauses, timer values still in the channel): D49 repaired. *)
+Definition no_resume (o : cop) : Prop :=
+  match o with CResume _ => False | _ => True end.
 
-Definition quiet_op (o : cop) : Prop :=
-  match o with CRem _ | CTick _ | CSuspend => True | _ => False end.
-
-(** While suspended nothing fires, as long as nothing re-arms the timer
-    (no Add, no return of a callback, no pause, no resume). *)
 Definition suspended_quiet_statement : Prop :=
-  forall c ops, Forall quiet_op ops -> timer_driven (step c CSuspend) ops ->
-    c_fires (run ops (step c CSuspend)) = c_fires c.
+  forall c ops, c_susp c = true -> Forall no_resume ops ->
+    c_fires (run ops c) = c_fires c /\ c_susp (run ops c) = true.
+
+(** The timer of a suspended instance is stopped, in every reachable state. *)
+Definition suspended_timer_stopped_statement : Prop :=
+  forall ops limit, c_susp (run ops (cron_init limit)) = true ->
+    c_armed (run ops (cron_init limit)) = None.
 
 (** Resume re-arms the timer for the head: suspension only delays. *)
 Definition resume_rearms_statement : Prop :=
@@ -96,15 +106,37 @@ Definition resume_rearms_statement : Prop :=
     c_armed (step c (CResume now)) = Some (Z.max (j_next j) now) /\
     c_susp (step c (CResume now)) = false.
 
-(** Without Rem and Suspend (and while no Add is refused), the timer is always
-    armed for an instant at which the head is due: the head will be served. *)
-Definition no_rem_susp (o : cop) : Prop :=
-  match o with CRem _ | CSuspend => False | _ => True end.
-
-Definition timer_armed_without_rem_statement : Prop :=
-  forall ops limit j r, Forall no_rem_susp ops -> Z.of_nat (length ops) <= limit ->
+(** In every reachable state that is not suspended the timer is armed for
+    an instant at which the head is due: the head will be served (D38
+    repaired: no history stalls the instance). *)
+Definition timer_armed_invariant_statement : Prop :=
+  forall ops limit j r,
     c_tl (run ops (cron_init limit)) = j :: r ->
+    c_susp (run ops (cron_init limit)) = false ->
     exists t, c_armed (run ops (cron_init limit)) = Some t /\ j_next j <= t.
+
+Definition never_stalled_statement : Prop :=
+  forall ops limit, stalled (run ops (cron_init limit)) = false.
+
+(** Rem re-arms the timer for the new head. *)
+Definition rem_rearms_timer_statement : Prop :=
+  forall c id now j r, c_susp c = false -> rem_found c id = true ->
+    c_tl (step c (CRem id now)) = j :: r ->
+    c_armed (step c (CRem id now)) = Some (Z.max (j_next j) now).
+
+(** A refused Add has no effect at all (D50 repaired). *)
+Definition refused_add_no_effect_statement : Prop :=
+  forall c id next recurring now,
+    add_ok c id next recurring now = false -> step c (CAdd id next recurring now) = c.
+
+(** An accepted Add puts the job on the timeline, and the limit is respected
+    by Add: it is refused iff the timeline, not counting the job it would
+    replace, has reached the limit. *)
+Definition add_ok_iff_statement : Prop :=
+  forall c id next recurring now,
+    add_ok c id next recurring now = negb (over_limit c id) /\
+    (add_ok c id next recurring now = true ->
+     In (mkJob id next recurring) (c_tl (step c (CAdd id next recurring now)))).
 
 (** sort.Search (binary search) on a sorted timeline finds the position the
     model's linear insert uses. *)
